@@ -150,6 +150,29 @@ func scenStream(specs []streamSpec, unary int, cause string, at int, subBuf int,
 			e.tr.ev("stop.returned")
 		}
 	}
+	// a subscriber that never reads while its handler sends far more than any internal buffer holds: once the handler has
+	// sent everything, fresh ordinary calls are issued; they too must complete
+	for i, sp := range specs {
+		if sp.Consumer == "never" && sp.N >= 5000 && obs[i].SubErr == "" {
+			tokS := fmt.Sprint(obs[i].Token)
+			dl := time.Now().Add(5 * time.Second)
+			for time.Now().Before(dl) {
+				n := 0
+				for _, ev := range e.tr.snapshot() {
+					if ev.Point == "prod.send" && fmt.Sprint(ev.Args[0]) == tokS {
+						n++
+					}
+				}
+				if n >= sp.N-600 { // the rest may sit in socket buffers if the reader has stopped
+					break
+				}
+				time.Sleep(5 * time.Millisecond)
+			}
+			time.Sleep(50 * time.Millisecond)
+			e.call("echo", context.Background())
+			e.call("echo", context.Background())
+		}
+	}
 	// unary calls must complete although a consumer never reads
 	e.waitCalls(3 * time.Second)
 	unaryDone := true
@@ -207,6 +230,91 @@ func scenStream(specs []streamSpec, unary int, cause string, at int, subBuf int,
 	return r
 }
 
+// the connection ends (client closed / link lost) at the very moment a stream value is inside the client's sink callback:
+// the executor is held there by a gate, the cause strikes, the gate opens 30ms later. The value in delivery and the
+// closing of the sink must not overlap (the process must survive), and the caller's channel must be closed.
+func scenCloseDuringDelivery(cause string) *connRun {
+	e := newConnEnv(connOpts{noReconnect: true})
+	params := map[string]interface{}{"cause": cause, "instant": "value inside the sink callback"}
+	e.nextTok++
+	tok := int(e.nextTok)
+	o := &streamObs{Token: tok, N: 5, Got: []int{}}
+	g := e.tr.gate("sink.val", nil)
+	e.tr.ev("call.issue", tok, "sub")
+	ch, err := e.cl.Sub(context.Background(), tok, 5)
+	var mu sync.Mutex
+	done := make(chan struct{})
+	if err != nil {
+		o.SubErr = err.Error()
+		e.tr.ev("call.return", tok, "other:"+err.Error())
+		close(done)
+	} else {
+		e.tr.ev("call.return", tok, "ok")
+		go func() {
+			defer close(done)
+			for v := range ch {
+				e.tr.ev("cons.recv", tok, v)
+				mu.Lock()
+				o.Got = append(o.Got, v)
+				mu.Unlock()
+			}
+			e.tr.ev("cons.closed", tok)
+			mu.Lock()
+			o.Closed = true
+			mu.Unlock()
+		}()
+	}
+	hit := g.wait(3 * time.Second)
+	stopped := make(chan struct{})
+	switch cause {
+	case "stop":
+		// the closer waits for the connection loop, which waits for the delivery in progress: it is invoked concurrently
+		e.tr.ev("stop.invoke")
+		go func() { e.closer(); e.tr.ev("stop.returned"); close(stopped) }()
+	case "fin":
+		e.proxy.current().kill(faultFIN)
+		close(stopped)
+	case "rst":
+		e.proxy.current().kill(faultRST)
+		close(stopped)
+	}
+	time.Sleep(30 * time.Millisecond)
+	g.release()
+	closerReturned := true
+	select {
+	case <-stopped:
+	case <-time.After(3 * time.Second):
+		closerReturned = false
+	}
+	closed := true
+	select {
+	case <-done:
+	case <-time.After(3 * time.Second):
+		closed = false
+	}
+	r := e.finish("term", params)
+	mu.Lock()
+	params["streams"] = []*streamObs{o}
+	if r.Oracle == "" {
+		switch {
+		case !hit:
+			r.Oracle = ""
+		case !closerReturned:
+			r.Oracle = "the client's closer did not return within 3s of the delivery in progress having completed"
+		case !closed:
+			r.Oracle = fmt.Sprintf("the channel of stream %d was never closed (cause %s while a value was being delivered)", tok, cause)
+		default:
+			for j, v := range o.Got {
+				if v != tok*1000+j {
+					r.Oracle = fmt.Sprintf("stream %d: element %d is %d, the handler sent %d", tok, j, v, tok*1000+j)
+				}
+			}
+		}
+	}
+	mu.Unlock()
+	return r
+}
+
 func streamOracle(specs []streamSpec, obs []*streamObs, cause string, unaryDone, allClosed bool) string {
 	if !unaryDone {
 		return "unary calls did not complete while a subscriber was not reading"
@@ -258,7 +366,7 @@ func init() {
 			emit(scenStream([]streamSpec{{N: 20, Consumer: "slow"}, {N: 1, Consumer: "fast"}, {N: 25, Consumer: "slow"}, {N: 2, Consumer: "fast"}}, 1, "normal", 0, 0, false))
 			// a subscriber that never reads while its handler sends far more than any internal buffer holds: ordinary calls
 			// and other subscriptions on the connection must not be held up
-			emit(scenStream([]streamSpec{{N: 9000, Consumer: "never"}, {N: 6, Consumer: "fast"}}, 2, "normal", 0, 0, false))
+			emit(scenStream([]streamSpec{{N: 12000, Consumer: "never"}, {N: 6, Consumer: "fast"}}, 2, "normal", 0, 0, false))
 			// non-scalar elements (optional slice / map / pointer fields that differ from one element to the next)
 			emit(scenStream([]streamSpec{{N: 12, Consumer: "fast", Struct: true}}, 0, "normal", 0, 0, false))
 			emit(scenStream([]streamSpec{{N: 30, Consumer: "slow", Struct: true}, {N: 30, Consumer: "fast"}, {N: 9, Consumer: "fast", Struct: true}}, 1, "normal", 0, 4, false))
@@ -273,6 +381,14 @@ func init() {
 					sp = append(sp, streamSpec{N: lens[r.intn(len(lens))], Consumer: []string{"fast", "slow", "fast", "never"}[r.intn(4)]})
 				}
 				emit(scenStream(sp, r.intn(3), "normal", 0, r.intn(3)*4, false))
+			}
+		}
+		if which == "close" || which == "all" || which == "term" {
+			for _, cause := range []string{"stop", "fin", "rst"} {
+				if which == "close" && cause == "rst" {
+					continue
+				}
+				emit(scenCloseDuringDelivery(cause))
 			}
 		}
 		if which == "close" {
